@@ -824,15 +824,27 @@ func (x *Exec) settle() {
 		}
 		return
 	}
-	for runtime.NumGoroutine() > x.baseline && time.Since(t0) < 500*time.Millisecond {
+	// Quiescence = no goroutine is left in scheduler code. The goroutine count
+	// alone does not decide it: the baseline may include a harness goroutine
+	// that was about to exit, which would mask a leaked one.
+	for {
+		n := 0
+		for _, g := range parseDump(dumpAll()) {
+			if g.InScheduler() {
+				n++
+			}
+		}
+		if n == 0 {
+			return
+		}
+		if time.Since(t0) > 500*time.Millisecond {
+			break
+		}
 		if time.Since(t0) < 3*time.Millisecond {
 			runtime.Gosched()
 		} else {
 			time.Sleep(time.Millisecond)
 		}
-	}
-	if runtime.NumGoroutine() <= x.baseline {
-		return
 	}
 	// Something is still there. Look at it.
 	for round := 0; round < 6; round++ {
